@@ -5,14 +5,19 @@ EXTENDS NameResolve, Json, IOUtils
 Rec == ndJsonDeserialize(IOEnv.TRACE)
 VARIABLES l, bad, free
 vars == <<l, bad, free>>
-Judge(e) == /\ e.op = "resolve" /\ e.out.k = "ok"
-            /\ ResolveOK(e.args.lines, e.args.toks, e.args.names, e.args.q, e.args.name, e.out.ret)
-Free(e) == FALSE
+Normal(e) == /\ e.op = "resolve" /\ e.out.k = "ok"
+             /\ ResolveOK(e.args.lines, e.args.toks, e.args.names, e.args.q, e.args.name, e.out.ret)
+\* excuse (evaluated only when the relation does not hold): the walk met a token whose column lies inside a
+\* surrogate pair -- not a character position, left free by NameResolve.tla; a panic is never excused
+Excused(e) == /\ e.op = "resolve" /\ e.out.k = "ok"
+              /\ LET i0 == Landing(e.args.toks, e.args.q) IN i0 # 0 /\ WalkMeetsMidPair(e.args.lines, e.args.toks, i0)
 Init == l = 1 /\ bad = <<>> /\ free = <<>>
 Next == /\ l <= Len(Rec)
         /\ l' = l + 1
-        /\ bad' = IF Judge(Rec[l]) THEN bad ELSE Append(bad, Rec[l].i)
-        /\ free' = IF Free(Rec[l]) THEN Append(free, Rec[l].i) ELSE free
+        /\ LET n == Normal(Rec[l]) IN
+           IF n THEN bad' = bad /\ free' = free
+           ELSE IF Excused(Rec[l]) THEN bad' = bad /\ free' = Append(free, Rec[l].i)
+           ELSE bad' = Append(bad, Rec[l].i) /\ free' = free
 Spec == Init /\ [][Next]_vars
 Report == (l = Len(Rec) + 1) => PrintT("RESULT " \o ToJson([events |-> Len(Rec), bad |-> bad, free |-> free]))
 =============================================================================
